@@ -3,8 +3,10 @@
 From Coq Require Import Permutation Sorted.
 From TT Require Import Lib.Base Lib.Sort Model.Suites Spec.C19 Corr.C19 Proof.C19.
 
-(* The model meets the whole statement, for every suite tree, every id set and both unpack flags. *)
-Theorem C19_holds : forall i : input, spec_okb i (model i) = true.
+(* The model meets the whole statement, for every suite tree, every id set, both unpack flags, every
+   table of test ids (non-empty byte strings without line feed and without ASCII whitespace at either
+   end - blanks, tabs, brackets, any UTF-8 inside) and every list file (any bytes). *)
+Theorem C19_holds : forall i : input, wf i -> spec_okb i (model i) = true.
 Proof. exact model_meets_spec. Qed.
 Print Assumptions C19_holds.
 
@@ -39,6 +41,36 @@ Theorem C19_dup : forall u n,
 Proof. exact (fun u n => conj (sorted_raises_iff_dup u n) (sorted_raises_only_ValueError u n)). Qed.
 Print Assumptions C19_dup.
 
+(* --list prints the ids of the leaves in suite order; --load-list f runs, and --list --load-list f
+   prints, exactly the tests whose id is listed by a line of f, in their original order and grouping *)
+Theorem C19_cli : forall nms f n, forallb wf_nameb nms = true ->
+  cli_list n = leaves n
+  /\ cli_run (cli_load nms f n) = filter (listedb nms f) (leaves n)
+  /\ cli_list (cli_load nms f n) = filter (listedb nms f) (leaves n)
+  /\ paths (cli_load nms f n) = filter (fun p => listedb nms f (snd p)) (paths n).
+Proof. exact (fun nms f n W => conj (iterate_leaves n) (cli_load_runs nms f n W)). Qed.
+Print Assumptions C19_cli.
+
+(* the reader of the list file (binary readlines + strip) puts an id into the set exactly when some
+   line of the file is that id surrounded by nothing but ASCII whitespace: a line is ONE id, blanks
+   inside it separate nothing *)
+Theorem C19_load_list : forall nm f, wf_nameb nm = true ->
+  (memb nm (load_ids f) = true <-> Lists f nm) /\ (file_lists f nm = true <-> Lists f nm).
+Proof. exact (fun nm f W => conj (load_ids_iff nm f W) (file_lists_iff nm f W)). Qed.
+Print Assumptions C19_load_list.
+
+(* "the lines of the file" ([split_lf], used by Lists) are the pieces between line feeds *)
+Theorem C19_lines : forall f, join_lf (split_lf f) = f /\ Forall (fun l => ~ In 10 l) (split_lf f).
+Proof. exact (fun f => conj (split_lf_join f) (split_lf_no_lf f)). Qed.
+Print Assumptions C19_lines.
+
+(* `run --list > f` followed by `run --load-list f` runs every test *)
+Theorem C19_list_then_load : forall nms n, forallb wf_nameb nms = true ->
+  (forall i, In i (iterate n) -> i < length nms) ->
+  cli_run (cli_load nms (list_output nms (cli_list n)) n) = iterate n.
+Proof. exact list_then_load_all. Qed.
+Print Assumptions C19_list_then_load.
+
 (* the correspondence compares observations exactly *)
 Theorem C19_obs_eqb : forall a b, obs_eqb a b = true <-> a = b.
 Proof. exact obs_eqb_spec. Qed.
@@ -52,4 +84,16 @@ Example C19_example :
   /\ iterate (filter_ids (fun i => Nat.leb i 3) t) = [3; 1; 2]
   /\ (match sorted_tests false t with Ok r => iterate r | Raised _ => [] end) = [2; 3; 5; 8; 9; 1]
   /\ sorted_tests false (Plain [Case 1; Plain [Case 1]]) = Raised ValueError.
+Proof. vm_compute. repeat split. Qed.
+
+(* non-vacuity of the list-file clause: ids "a", "a b", "b"; the file " a b \r\n\nb" (no final
+   newline) lists "a b" and "b" but not "a" *)
+Example C19_example_load_list :
+  let nms := [[97]; [97; 32; 98]; [98]] in
+  let f := [32; 97; 32; 98; 32; 13; 10; 10; 98] in
+  let t := Plain [Case 0; Custom false true [Case 1; Case 2]] in
+  forallb wf_nameb nms = true
+  /\ load_ids f = [[97; 32; 98]; []; [98]]
+  /\ cli_run (cli_load nms f t) = [1; 2]
+  /\ filter (listedb nms f) (leaves t) = [1; 2].
 Proof. vm_compute. repeat split. Qed.
